@@ -625,7 +625,7 @@ pub fn parse_date_yymmdd(input: &str) -> Result<NaiveDate, ParseError> {
 
 /// Parse date in YYYYMMDD format
 pub fn parse_date_yyyymmdd(input: &str) -> Result<NaiveDate, ParseError> {
-    if input.len() != 8 {
+    if input.len() != 8 || !input.is_ascii() {
         return Err(ParseError::InvalidFormat {
             message: format!(
                 "Date must be in YYYYMMDD format (8 digits), found {} characters",
@@ -657,7 +657,7 @@ pub fn parse_date_yyyymmdd(input: &str) -> Result<NaiveDate, ParseError> {
 
 /// Parse time in HHMM format
 pub fn parse_time_hhmm(input: &str) -> Result<NaiveTime, ParseError> {
-    if input.len() != 4 {
+    if input.len() != 4 || !input.is_ascii() {
         return Err(ParseError::InvalidFormat {
             message: format!(
                 "Time must be in HHMM format (4 digits), found {} characters",
@@ -684,7 +684,7 @@ pub fn parse_time_hhmm(input: &str) -> Result<NaiveTime, ParseError> {
 
 /// Parse datetime in YYMMDDHHMM format
 pub fn parse_datetime_yymmddhhmm(input: &str) -> Result<NaiveDateTime, ParseError> {
-    if input.len() != 10 {
+    if input.len() != 10 || !input.is_ascii() {
         return Err(ParseError::InvalidFormat {
             message: format!(
                 "DateTime must be in YYMMDDHHMM format (10 digits), found {} characters",
